@@ -19,7 +19,7 @@ ASSUMPTIONS = ['float32 accuracy bound of the statement taken as 1e-6 rad (measu
                'V2 reference: light plane through the rotation axis direction tilted by 30 deg, n(a).d = 0']
 REQUIRED = ['mon.v1_v2_v1', 'mon.v1_cart_v1', 'mon.v1_proj_v1', 'mon.v2_plane_reference', 'mon.pose_inverse',
             'mon.pose_associativity', 'mon.pose_views', 'mon.solver_projection', 'mon.solver_zero_rotation', 'mon.ippe_axes', 'mon.pose_laws_after_history',
-            'mon.solver_pairs_with_crazyflie_behind_the_base_station']
+            'mon.solver_pairs_with_crazyflie_behind_the_base_station', 'mon.solver_non_canonical_rotation_vectors']
 
 H_LIM, V_LIM = math.radians(80), math.radians(55)
 T = math.pi / 6
@@ -266,6 +266,21 @@ def run_solver(desc, ctx):
                 ctx.count('mon.solver_pairs_with_crazyflie_behind_the_base_station')
             rv_b = B.rot_vec if not np.allclose(Rb, np.eye(3)) else np.zeros(3)
             rv_c = C.rot_vec if not zero else np.zeros(3)
+            # the optimiser is free to leave a rotation vector in a non-canonical form (longer than half a turn):
+            # the same rotation written with |r| in (pi, 2 pi), or with extra full turns
+            for which in ('b', 'c'):
+                rv = rv_b if which == 'b' else rv_c
+                th = float(np.linalg.norm(rv))
+                if th > 1e-6 and rnd.random() < 0.2:
+                    if rnd.random() < 0.6:
+                        rv2 = -rv / th * (2 * math.pi - th)
+                    else:
+                        rv2 = rv / th * (th + 2 * math.pi)
+                    ctx.count('mon.solver_non_canonical_rotation_vectors')
+                    if which == 'b':
+                        rv_b = rv2
+                    else:
+                        rv_c = rv2
             bsp.append(np.concatenate((rv_b, tb)))
             cfp.append(np.concatenate((rv_c, tc)))
             sens.append(s)
